@@ -437,8 +437,9 @@ def operands_are(v, a, b, effects=()):
 
 
 def r45(ctx, prog):
-    cl = [i for i in prog.facts['impls'] if path_endswith(i.get('trait') or '', 'clone::Clone') and i['self_ty'].startswith('context::HashMapContext<')]
-    ctx.check(len(cl) == 1 and cl[0]['derived'], 'R4.5', 'HashMapContext:Clone', 'derived-clone', 'Clone for HashMapContext is the derived field-wise clone')
+    from rules.common import fieldwise_clone
+    okc, how = fieldwise_clone(prog)
+    ctx.check(okc, 'R4.5', 'HashMapContext:Clone', 'derived-clone', 'Clone for HashMapContext is the field-wise clone (%s)' % how)
     tw = [t for t in prog.facts['type_walk'] if t['adt'] == 'context::HashMapContext']
     if not tw:
         ctx.unrecognised('R4.5', 'HashMapContext:type-walk', 'missing', 'type walk not exported')
